@@ -156,13 +156,20 @@ Proof.
 Qed.
 
 (* ================================================================ invitations *)
-Definition no_foreign_invite_token (m : pm) (seen : list N) : Prop :=
-  forall inv t, In (TkInvite inv, t) (pm_tokens m) -> mem_n inv seen = true.
+(* number of entries that register invitation i *)
+Definition cntr (i : N) (l : list (token * ttype)) : nat := length (filter (registered i) l).
 
-Lemma mem_n_cons : forall x y l, mem_n x l = true -> mem_n x (y :: l) = true.
-Proof. intros x y l H. unfold mem_n in *. cbn [existsb]. rewrite H. apply orb_true_r. Qed.
-Lemma mem_n_head : forall x l, mem_n x (x :: l) = true.
-Proof. intros x l. unfold mem_n. cbn [existsb]. rewrite N.eqb_refl. reflexivity. Qed.
+Lemma mem_n_cons : forall x y l, mem_n x (y :: l) = N.eqb x y || mem_n x l.
+Proof. reflexivity. Qed.
+Lemma mem_n_drop : forall x y l, mem_n x (drop_n y l) = mem_n x l && negb (N.eqb x y).
+Proof.
+  intros x y. induction l as [|z l IH]; [reflexivity|].
+  unfold drop_n in *. cbn [filter]. destruct (N.eqb z y) eqn:E; cbn [negb].
+  - rewrite IH. rewrite mem_n_cons. apply N.eqb_eq in E. subst z.
+    destruct (N.eqb x y); cbn [orb negb]; [rewrite !andb_false_r; reflexivity | reflexivity].
+  - rewrite !mem_n_cons, IH. destruct (N.eqb x z) eqn:E2; cbn [orb]; [|reflexivity].
+    apply N.eqb_eq in E2. subst z. rewrite E. reflexivity.
+Qed.
 
 Lemma remove_first_incl : forall tk p l e, In e (remove_first tk p l) -> In e l.
 Proof.
@@ -174,383 +181,286 @@ Qed.
 Lemma token_of_not_invite : forall s p inv, token_of s p <> TkInvite inv.
 Proof. intros s p inv. unfold token_of, meeting_token. destruct (N.eqb p (s_pub s)); discriminate. Qed.
 
-Lemma lookup_unseen : forall m seen inv k, no_foreign_invite_token m seen -> mem_n inv seen = false ->
-  get_token_type m (TkInvite inv) k = None.
+Lemma cntr_app : forall i l1 l2, cntr i (l1 ++ l2) = (cntr i l1 + cntr i l2)%nat.
+Proof. intros. unfold cntr. rewrite filter_app, app_length. reflexivity. Qed.
+
+Lemma cntr_pos : forall i l e, In e l -> registered i e = true -> (1 <= cntr i l)%nat.
 Proof.
-  intros m seen inv k I H. unfold get_token_type.
+  intros i l e Hin Hr. unfold cntr.
+  assert (X : In e (filter (registered i) l)) by (apply filter_In; split; assumption).
+  destruct (filter (registered i) l); [destruct X | cbn; lia].
+Qed.
+
+Lemma existsb_cntr : forall i l, existsb (registered i) l = negb (Nat.eqb (cntr i l) 0).
+Proof.
+  intros i. induction l as [|e l IH]; [reflexivity|].
+  unfold cntr in *. cbn [existsb filter]. destruct (registered i e); cbn [orb length]; [reflexivity | exact IH].
+Qed.
+
+Lemma registered_token : forall i e, registered i e = true -> fst e = TkInvite i.
+Proof. intros i e H. unfold registered in H. apply andb_true_iff in H. apply token_eqb_eq. apply H. Qed.
+
+Lemma registered_other : forall i j e, fst e = TkInvite j -> i <> j -> registered i e = false.
+Proof.
+  intros i j e H Ne. unfold registered. rewrite H. cbn [token_eqb].
+  destruct (N.eqb j i) eqn:E; [apply N.eqb_eq in E; congruence | reflexivity].
+Qed.
+
+Lemma remove_first_cntr_other : forall i j p l, i <> j -> cntr i (remove_first (TkInvite j) p l) = cntr i l.
+Proof.
+  intros i j p l Ne. induction l as [|e l IH]; [reflexivity|].
+  cbn [remove_first]. destruct (token_eqb (fst e) (TkInvite j) && p (snd e)) eqn:E.
+  - apply andb_true_iff in E. destruct E as [E _]. apply token_eqb_eq in E.
+    unfold cntr. cbn [filter]. rewrite (registered_other i j e E Ne). reflexivity.
+  - unfold cntr in *. cbn [filter]. destruct (registered i e); cbn [length]; [f_equal|]; exact IH.
+Qed.
+
+Lemma remove_first_cntr_dec : forall i p l,
+  (forall e, token_eqb (fst e) (TkInvite i) && p (snd e) = true -> registered i e = true) ->
+  (exists e, In e l /\ token_eqb (fst e) (TkInvite i) && p (snd e) = true) ->
+  S (cntr i (remove_first (TkInvite i) p l)) = cntr i l.
+Proof.
+  intros i p l Sub. induction l as [|e l IH]; intros [x [Hin Hx]]; [destruct Hin|].
+  cbn [remove_first]. destruct (token_eqb (fst e) (TkInvite i) && p (snd e)) eqn:E.
+  - unfold cntr. cbn [filter]. rewrite (Sub e E). reflexivity.
+  - destruct Hin as [Hin|Hin]; [subst x; rewrite E in Hx; discriminate|].
+    unfold cntr in *. cbn [filter]. destruct (registered i e); cbn [length]; [f_equal|]; apply IH; exists x; split; assumption.
+Qed.
+
+(* the table and the reference set of pending invitations agree *)
+Record agree (next total : N) (m : pm) (pending : list N) : Prop := {
+  ag_under : forall e i, In e (pm_tokens m) -> fst e = TkInvite i -> registered i e = true;
+  ag_placed : forall e, In e (pm_tokens m) -> (forall i, snd e = TOwned i -> fst e = TkInvite i) /\
+                                             (forall i a s, snd e = TInvite i a s -> fst e = TkInvite i);
+  ag_count : forall i, cntr i (pm_tokens m) = if mem_n i pending then 1%nat else 0%nat;
+  ag_ids : forall i, mem_n i pending = true -> i < next \/ total < i }.
+
+Lemma agree_unknown : forall next total m pending i k, agree next total m pending ->
+  mem_n i pending = false -> get_token_type m (TkInvite i) k = None.
+Proof.
+  intros next total m pending i k A H. unfold get_token_type.
   destruct (find _ (pm_tokens m)) as [e|] eqn:F; [|reflexivity].
   apply find_some in F. destruct F as [Hin He]. apply andb_true_iff in He. destruct He as [He _].
-  apply token_eqb_eq in He. destruct e as [tk t]. cbn [fst] in He. subst tk.
-  rewrite (I inv t Hin) in H. discriminate.
+  apply token_eqb_eq in He.
+  pose proof (cntr_pos i _ e Hin (ag_under _ _ _ _ A e i Hin He)) as C.
+  rewrite (ag_count _ _ _ _ A i), H in C. lia.
 Qed.
 
-Lemma consume_preserves : forall m seen t p m', no_foreign_invite_token m seen ->
-  invite_accepted m t p = Some m' -> no_foreign_invite_token m' seen /\ pm_app m' = pm_app m.
+Lemma agree_push_allowed : forall next total m pending s p k, agree next total m pending ->
+  agree next total (push m (token_of s p) (TAllowed k)) pending.
 Proof.
-  intros m seen t p m' I H. unfold invite_accepted in H.
-  assert (P : no_foreign_invite_token (push m (token_of (pm_secret m) (p_pub p)) (TAllowed (p_key p))) seen).
-  { intros inv t0 Hin. unfold push in Hin. cbn [pm_tokens] in Hin. apply in_app_or in Hin.
-    destruct Hin as [Hin|[Hin|[]]]; [eapply I; exact Hin|].
-    inversion Hin as [[E1 E2]]. exfalso. eapply token_of_not_invite. exact E1. }
-  destruct t as [k|inv|inv a s]; inversion H; subst m'; cbn [pm_app]; (split; [|reflexivity]);
-    intros i t0 Hin; cbn [pm_tokens] in Hin; apply remove_first_incl in Hin; eapply P; exact Hin.
+  intros next total m pending s p k A. constructor.
+  - intros e i Hin He. unfold push in Hin. cbn [pm_tokens] in Hin. apply in_app_or in Hin.
+    destruct Hin as [Hin|[Hin|[]]]; [eapply ag_under; eassumption|].
+    subst e. cbn [fst] in He. exfalso. eapply token_of_not_invite. exact He.
+  - intros e Hin. unfold push in Hin. cbn [pm_tokens] in Hin. apply in_app_or in Hin.
+    destruct Hin as [Hin|[Hin|[]]]; [eapply ag_placed; eassumption|].
+    subst e. cbn [snd]. split; intros; discriminate.
+  - intros i. unfold push. cbn [pm_tokens]. rewrite cntr_app. rewrite (ag_count _ _ _ _ A i).
+    unfold cntr at 1. cbn [filter]. unfold registered. cbn [snd is_owned is_invite orb]. rewrite andb_false_r. cbn [length]. lia.
+  - apply (ag_ids _ _ _ _ A).
 Qed.
 
-(* the per-operation part of the oracle holds on the model's answers, from any state that only holds
-   invitation tokens of invitations seen so far *)
-Lemma spec_ops_run : forall ops next m seen, no_foreign_invite_token m seen ->
-  spec_ops (pm_app m) seen ops (run_ops next m ops) = true.
+(* consuming the pending invitation i ends it *)
+Lemma agree_consume : forall next total m pending i p m',
+  agree next total m pending ->
+  (forall e, token_eqb (fst e) (TkInvite i) && p (snd e) = true -> registered i e = true) ->
+  (exists e, In e (pm_tokens m) /\ token_eqb (fst e) (TkInvite i) && p (snd e) = true) ->
+  pm_tokens m' = remove_first (TkInvite i) p (pm_tokens m) ->
+  agree next total m' (drop_n i pending).
 Proof.
-  induction ops as [|op ops IH]; intros next m seen I; [reflexivity|].
+  intros next total m pending i p m' A Sub Ex Hm'. constructor.
+  - intros e j Hin He. rewrite Hm' in Hin. apply remove_first_incl in Hin. eapply ag_under; eassumption.
+  - intros e Hin. rewrite Hm' in Hin. apply remove_first_incl in Hin. eapply ag_placed; eassumption.
+  - intros j. rewrite Hm', mem_n_drop. destruct (N.eqb j i) eqn:E.
+    + apply N.eqb_eq in E. subst j. rewrite andb_false_r.
+      pose proof (remove_first_cntr_dec i p (pm_tokens m) Sub Ex) as D.
+      pose proof (ag_count _ _ _ _ A i) as C. destruct (mem_n i pending); lia.
+    + apply N.eqb_neq in E. rewrite remove_first_cntr_other by exact E. cbn [negb]. rewrite andb_true_r.
+      apply (ag_count _ _ _ _ A).
+  - intros j Hj. rewrite mem_n_drop in Hj. apply andb_true_iff in Hj. apply (ag_ids _ _ _ _ A). apply Hj.
+Qed.
+
+(* THE invitation theorem: from any state that agrees with the reference set, every answer of the
+   model passes the per-operation oracle (single use included) *)
+Lemma spec_ops_run : forall total ops next m pending, agree next total m pending ->
+  next + n_creates ops = N.succ total -> ops_ok next total ops = true ->
+  spec_ops (pm_app m) pending ops (run_ops next m ops) = true.
+Proof.
+  intros total. induction ops as [|op ops IH]; intros next m pending A Hn Ok; [reflexivity|].
   cbn [run_ops].
   destruct op as [|b|tr k|tr p]; cbn [step].
-  - (* create *)
-    cbn [spec_ops op_ok seen_after andb].
-    change (pm_app m) with (pm_app (create_invite m next)). apply IH.
-    intros i t Hin. unfold create_invite, push in Hin. cbn [pm_tokens] in Hin. apply in_app_or in Hin.
-    unfold zn. rewrite N2Z.id.
-    destruct Hin as [Hin|[Hin|[]]]; [apply mem_n_cons; eapply I; exact Hin|].
-    inversion Hin; subst. apply mem_n_head.
+  - (* create: rank next is not pending yet *)
+    cbn [n_creates] in Hn. cbn [ops_ok] in Ok.
+    cbn [spec_ops op_ok pending_after andb]. unfold zn. rewrite N2Z.id.
+    change (pm_app m) with (pm_app (create_invite m next)). apply IH; [|lia|exact Ok].
+    assert (NP : mem_n next pending = false).
+    { destruct (mem_n next pending) eqn:M; [|reflexivity]. destruct (ag_ids _ _ _ _ A next M); lia. }
+    constructor.
+    + intros e i Hin He. unfold create_invite, push in Hin. cbn [pm_tokens] in Hin. apply in_app_or in Hin.
+      destruct Hin as [Hin|[Hin|[]]]; [eapply ag_under; eassumption|].
+      subst e. cbn [fst] in He. inversion He; subst i. unfold registered. cbn [fst snd token_eqb is_owned]. rewrite N.eqb_refl. reflexivity.
+    + intros e Hin. unfold create_invite, push in Hin. cbn [pm_tokens] in Hin. apply in_app_or in Hin.
+      destruct Hin as [Hin|[Hin|[]]]; [eapply ag_placed; eassumption|].
+      subst e. cbn [fst snd]. split; [intros i Hi; inversion Hi; reflexivity | intros; discriminate].
+    + intros i. unfold create_invite, push. cbn [pm_tokens]. rewrite cntr_app, mem_n_cons. rewrite (ag_count _ _ _ _ A i).
+      unfold cntr at 1. cbn [filter]. unfold registered. cbn [fst snd token_eqb is_owned is_invite]. rewrite orb_false_r, andb_diag.
+      rewrite (N.eqb_sym next i). destruct (N.eqb i next) eqn:E; cbn [orb length].
+      * apply N.eqb_eq in E. subst i. rewrite NP. reflexivity.
+      * destruct (mem_n i pending); reflexivity.
+    + intros i Hi. rewrite mem_n_cons in Hi. apply orb_true_iff in Hi. destruct Hi as [Hi|Hi].
+      * apply N.eqb_eq in Hi. subst i. left. lia.
+      * destruct (ag_ids _ _ _ _ A i Hi); [left; lia | right; assumption].
   - (* accept *)
+    cbn [n_creates] in Hn.
     destruct b as [|inv app signer]; cbn [accept_invite].
-    + cbn [spec_ops op_ok seen_after Z.eqb andb]. apply IH. exact I.
-    + destruct (N.eqb app (pm_app m)) eqn:E.
-      * cbn [spec_ops op_ok seen_after Z.eqb]. rewrite E. cbn [andb].
-        change (pm_app m) with (pm_app (push m (TkInvite inv) (TInvite inv app signer))). apply IH.
-        intros i t Hin. unfold push in Hin. cbn [pm_tokens] in Hin. apply in_app_or in Hin.
-        destruct Hin as [Hin|[Hin|[]]]; [apply mem_n_cons; eapply I; exact Hin|].
-        inversion Hin; subst. apply mem_n_head.
-      * cbn [spec_ops op_ok seen_after Z.eqb andb]. apply IH. exact I.
+    + cbn [spec_ops op_ok pending_after Z.eqb andb]. cbn [ops_ok] in Ok. apply IH; assumption.
+    + cbn [ops_ok] in Ok. apply andb_true_iff in Ok. destruct Ok as [Oid Ok].
+      destruct (N.eqb app (pm_app m)) eqn:E.
+      * destruct (existsb (registered inv) (pm_tokens m)) eqn:X.
+        -- (* already known: nothing changes, and it is pending *)
+           cbn [spec_ops op_ok pending_after Z.eqb]. rewrite E. cbn [andb].
+           apply IH; [|exact Hn|exact Ok].
+           assert (M : mem_n inv pending = true).
+           { rewrite existsb_cntr in X. pose proof (ag_count _ _ _ _ A inv) as C.
+             destruct (mem_n inv pending); [reflexivity|]. rewrite C in X. discriminate X. }
+           constructor; try apply A.
+           ++ intros i. rewrite mem_n_cons. rewrite (ag_count _ _ _ _ A i).
+              destruct (N.eqb i inv) eqn:Ei; cbn [orb]; [|reflexivity].
+              apply N.eqb_eq in Ei. subst i. rewrite M. reflexivity.
+           ++ intros i Hi. rewrite mem_n_cons in Hi. apply orb_true_iff in Hi. destruct Hi as [Hi|Hi]; [|apply (ag_ids _ _ _ _ A); exact Hi].
+              apply N.eqb_eq in Hi. subst i. apply (ag_ids _ _ _ _ A). exact M.
+        -- (* registered now *)
+           cbn [spec_ops op_ok pending_after Z.eqb]. rewrite E. cbn [andb].
+           change (pm_app m) with (pm_app (push m (TkInvite inv) (TInvite inv app signer))).
+           apply IH; [|exact Hn|exact Ok].
+           assert (NP : mem_n inv pending = false).
+           { rewrite existsb_cntr in X. pose proof (ag_count _ _ _ _ A inv) as C.
+             destruct (mem_n inv pending); [|reflexivity]. rewrite C in X. discriminate X. }
+           constructor.
+           ++ intros e i Hin He. unfold push in Hin. cbn [pm_tokens] in Hin. apply in_app_or in Hin.
+              destruct Hin as [Hin|[Hin|[]]]; [eapply ag_under; eassumption|].
+              subst e. cbn [fst] in He. inversion He; subst i. unfold registered. cbn [fst snd token_eqb is_owned is_invite]. rewrite N.eqb_refl. reflexivity.
+           ++ intros e Hin. unfold push in Hin. cbn [pm_tokens] in Hin. apply in_app_or in Hin.
+              destruct Hin as [Hin|[Hin|[]]]; [eapply ag_placed; eassumption|].
+              subst e. cbn [fst snd]. split; [intros; discriminate | intros i a s Hi; inversion Hi; reflexivity].
+           ++ intros i. unfold push. cbn [pm_tokens]. rewrite cntr_app, mem_n_cons. rewrite (ag_count _ _ _ _ A i).
+              unfold cntr at 1. cbn [filter]. unfold registered. cbn [fst snd token_eqb is_owned is_invite]. cbn [orb]. rewrite andb_diag.
+              rewrite (N.eqb_sym inv i). destruct (N.eqb i inv) eqn:Ei; cbn [orb length].
+              ** apply N.eqb_eq in Ei. subst i. rewrite NP. reflexivity.
+              ** destruct (mem_n i pending); reflexivity.
+           ++ intros i Hi. rewrite mem_n_cons in Hi. apply orb_true_iff in Hi. destruct Hi as [Hi|Hi]; [|apply (ag_ids _ _ _ _ A); exact Hi].
+              apply N.eqb_eq in Hi. subst i. apply orb_true_iff in Oid. destruct Oid as [O1|O1]; apply N.ltb_lt in O1; [left | right]; exact O1.
+      * cbn [spec_ops op_ok pending_after Z.eqb andb]. apply IH; assumption.
   - (* lookup *)
+    cbn [n_creates] in Hn. cbn [ops_ok] in Ok.
     destruct (lookup_obs (get_token_type m (tok_of_ref m tr) k)) as [a b] eqn:L.
-    cbn [spec_ops]. rewrite (IH next m (seen_after seen (OLookup tr k) a b)) by (cbn [seen_after]; exact I).
+    cbn [spec_ops]. rewrite (IH next m (pending_after pending (OLookup tr k) a b)) by (cbn [pending_after]; assumption).
     rewrite andb_true_r. cbn [op_ok]. apply andb_true_iff. split.
-    + (* an allowed-peer answer names the claimed key *)
-      destruct (get_token_type m (tok_of_ref m tr) k) as [t|] eqn:G; [|inversion L; reflexivity].
+    + destruct (get_token_type m (tok_of_ref m tr) k) as [t|] eqn:G; [|inversion L; reflexivity].
       unfold get_token_type in G. destruct (find _ (pm_tokens m)) as [e|] eqn:F; [|discriminate G].
       inversion G; subst t. apply find_some in F. destruct F as [_ He]. apply andb_true_iff in He. destruct He as [_ He].
-      destruct (snd e) as [p|i|i ap s]; cbn [lookup_obs] in L; inversion L; subst; try reflexivity.
-      cbn [entry_matches] in He. apply N.eqb_eq in He. subst p. cbn [Z.eqb]. apply Z.eqb_refl.
-    + destruct tr as [inv|p|]; try reflexivity. cbn [tok_of_ref] in L.
-      destruct (mem_n inv seen) eqn:M; [reflexivity|].
-      rewrite (lookup_unseen m seen inv k I M) in L. inversion L. reflexivity.
+      destruct (snd e) as [q|i|i ap s]; cbn [lookup_obs] in L; inversion L; subst; try reflexivity.
+      cbn [entry_matches] in He. apply N.eqb_eq in He. subst q. cbn [Z.eqb]. apply Z.eqb_refl.
+    + destruct tr as [inv|q|]; try reflexivity. cbn [tok_of_ref] in L.
+      destruct (mem_n inv pending) eqn:M; [reflexivity|].
+      rewrite (agree_unknown _ _ _ _ inv k A M) in L. inversion L. reflexivity.
   - (* consume *)
-    assert (Unseen : forall inv, tr = RInv inv -> mem_n inv seen = false ->
-                     get_token_type m (tok_of_ref m tr) (p_key p) = None).
-    { intros inv E M. subst tr. cbn [tok_of_ref]. eapply lookup_unseen; eassumption. }
+    cbn [n_creates] in Hn. cbn [ops_ok] in Ok.
     destruct (get_token_type m (tok_of_ref m tr) (p_key p)) as [t|] eqn:G.
-    + assert (Seen : match tr with RInv inv => mem_n inv seen = true | _ => True end).
-      { destruct tr as [inv|q|]; try exact Logic.I. destruct (mem_n inv seen) eqn:M; [reflexivity|].
-        specialize (Unseen inv eq_refl M). discriminate Unseen. }
-      destruct t as [k|inv|inv a s].
-      * cbn [spec_ops op_ok seen_after]. rewrite (IH next m seen I). rewrite andb_true_r.
-        destruct tr as [inv|q|]; try reflexivity. rewrite Seen. reflexivity.
-      * destruct (invite_accepted m (TOwned inv) p) as [m'|] eqn:C.
-        -- destruct (consume_preserves _ _ _ _ _ I C) as [I' A].
-           cbn [spec_ops op_ok seen_after]. rewrite <- A. rewrite (IH next m' seen I'). rewrite andb_true_r.
-           destruct tr as [i|q|]; try reflexivity. rewrite Seen. reflexivity.
-        -- cbn [spec_ops op_ok seen_after]. rewrite (IH next m seen I). rewrite andb_true_r.
-           destruct tr as [i|q|]; try reflexivity. rewrite Seen. reflexivity.
-      * destruct (invite_accepted m (TInvite inv a s) p) as [m'|] eqn:C.
-        -- destruct (consume_preserves _ _ _ _ _ I C) as [I' A].
-           cbn [spec_ops op_ok seen_after]. rewrite <- A. rewrite (IH next m' seen I'). rewrite andb_true_r.
-           destruct tr as [i|q|]; try reflexivity. rewrite Seen. reflexivity.
-        -- cbn [spec_ops op_ok seen_after]. rewrite (IH next m seen I). rewrite andb_true_r.
-           destruct tr as [i|q|]; try reflexivity. rewrite Seen. reflexivity.
-    + cbn [lookup_obs fst spec_ops op_ok seen_after]. rewrite (IH next m seen I). rewrite andb_true_r.
-      destruct tr as [inv|q|]; try reflexivity. destruct (mem_n inv seen); reflexivity.
-Qed.
-
-Lemma init_pm_no_foreign : forall app me mk, no_foreign_invite_token (init_pm app me mk) [].
-Proof. intros app me mk inv t Hin. cbn in Hin. destruct Hin as [Hin|[]]. discriminate Hin. Qed.
-
-Lemma table_holds : forall app me mk ops, spec_ops app [] ops (run_ops 1 (init_pm app me mk) ops) = true.
-Proof. intros app me mk ops. exact (spec_ops_run ops 1 (init_pm app me mk) [] (init_pm_no_foreign app me mk)). Qed.
-
-Lemma successes_le_attempts : forall inv ops obs, (successes inv ops obs <= attempts inv ops)%nat.
-Proof.
-  intros inv. induction ops as [|op ops IH]; intros obs; [destruct obs; cbn; lia|].
-  destruct obs as [|a [|b obs]]; cbn [successes]; try lia.
-  specialize (IH obs).
-  destruct op as [|bs|tr k|tr p]; cbn [attempts]; try lia.
-  destruct tr as [i|q|]; try lia.
-  destruct (N.eqb i inv); cbn [andb]; [|lia].
-  destruct ((Z.eqb a 2 || Z.eqb a 3) && Z.eqb b 1); lia.
-Qed.
-
-(* ---- an invitation is consumed at most as often as it was registered; w = count received
-        invitations too (false: only the ones this instance created) ---- *)
-Definition regsel (w : bool) (inv : N) (e : token * ttype) : bool :=
-  token_eqb (fst e) (TkInvite inv) && (is_owned inv (snd e) || (w && is_invite inv (snd e))).
-Definition cntw (w : bool) (inv : N) (l : list (token * ttype)) : nat := length (filter (regsel w inv) l).
-Fixpoint succw (w : bool) (inv : N) (ops : list pmop) (obs : list Z) : nat :=
-  match ops, obs with
-  | op :: r, a :: b :: obs' =>
-      ((match op with
-        | OConsume (RInv i) _ => if N.eqb i inv && (Z.eqb a 2 || (w && Z.eqb a 3)) && Z.eqb b 1 then 1 else 0
-        | _ => 0
-        end) + succw w inv r obs')%nat
-  | _, _ => O
-  end.
-(* registrations still to come: the create that gets rank inv, and (w) the accepts of inv *)
-Definition futw (w : bool) (app inv next : N) (ops : list pmop) : nat :=
-  ((if N.leb next inv && N.ltb inv (next + n_creates ops) then 1 else 0) + (if w then accepts app inv ops else 0))%nat.
-(* invitation entries sit under their own token *)
-Definition placed (l : list (token * ttype)) : Prop :=
-  (forall tk i, In (tk, TOwned i) l -> tk = TkInvite i) /\ (forall tk i a s, In (tk, TInvite i a s) l -> tk = TkInvite i).
-
-Lemma cntw_app : forall w inv l1 l2, cntw w inv (l1 ++ l2) = (cntw w inv l1 + cntw w inv l2)%nat.
-Proof. intros. unfold cntw. rewrite filter_app, app_length. reflexivity. Qed.
-
-Lemma remove_first_cnt_le : forall w inv tk p l, (cntw w inv (remove_first tk p l) <= cntw w inv l)%nat.
-Proof.
-  intros w inv tk p. induction l as [|e l IH]; [cbn; lia|].
-  cbn [remove_first]. destruct (token_eqb (fst e) tk && p (snd e)).
-  - unfold cntw. cbn [filter]. destruct (regsel w inv e); cbn [length]; lia.
-  - unfold cntw in *. cbn [filter]. destruct (regsel w inv e); cbn [length]; lia.
-Qed.
-
-Lemma remove_first_cnt_dec : forall w inv p l,
-  (forall e, token_eqb (fst e) (TkInvite inv) && p (snd e) = true -> regsel w inv e = true) ->
-  (exists e, In e l /\ token_eqb (fst e) (TkInvite inv) && p (snd e) = true) ->
-  S (cntw w inv (remove_first (TkInvite inv) p l)) = cntw w inv l.
-Proof.
-  intros w inv p l Sub. induction l as [|e l IH]; intros [x [Hin Hx]]; [destruct Hin|].
-  cbn [remove_first]. destruct (token_eqb (fst e) (TkInvite inv) && p (snd e)) eqn:E.
-  - unfold cntw. cbn [filter]. rewrite (Sub e E). reflexivity.
-  - destruct Hin as [Hin|Hin]; [subst x; rewrite E in Hx; discriminate|].
-    unfold cntw in *. cbn [filter]. destruct (regsel w inv e); cbn [length]; [f_equal|]; apply IH; exists x; split; assumption.
-Qed.
-
-Lemma placed_push_allowed : forall l tk k, placed l -> placed (l ++ [(tk, TAllowed k)]).
-Proof.
-  intros l tk k [P1 P2]. split.
-  - intros t i Hin. apply in_app_or in Hin. destruct Hin as [Hin|[Hin|[]]]; [apply P1; exact Hin | discriminate Hin].
-  - intros t i a s Hin. apply in_app_or in Hin. destruct Hin as [Hin|[Hin|[]]]; [eapply P2; exact Hin | discriminate Hin].
-Qed.
-Lemma placed_remove : forall tk p l, placed l -> placed (remove_first tk p l).
-Proof.
-  intros tk p l [P1 P2]. split.
-  - intros t i Hin. apply P1. eapply remove_first_incl. exact Hin.
-  - intros t i a s Hin. eapply P2. eapply remove_first_incl. exact Hin.
-Qed.
-
-Lemma fut_create : forall w app inv next ops,
-  ((if regsel w inv (TkInvite next, TOwned next) then 1 else 0) + futw w app inv (N.succ next) ops = futw w app inv next (OCreate :: ops))%nat.
-Proof.
-  intros w app inv next ops. unfold futw, regsel. cbn [fst snd token_eqb is_owned is_invite n_creates accepts].
-  rewrite andb_false_r, orb_false_r, andb_diag.
-  destruct (N.eqb next inv) eqn:E.
-  - apply N.eqb_eq in E. subst inv.
-    replace (N.leb (N.succ next) next) with false by (symmetry; apply N.leb_gt; lia).
-    replace (N.leb next next) with true by (symmetry; apply N.leb_le; lia).
-    replace (N.ltb next (next + N.succ (n_creates ops))) with true by (symmetry; apply N.ltb_lt; lia).
-    cbn [andb]. lia.
-  - apply N.eqb_neq in E.
-    replace (N.leb (N.succ next) inv && N.ltb inv (N.succ next + n_creates ops))
-       with (N.leb next inv && N.ltb inv (next + N.succ (n_creates ops))); [lia|].
-    destruct (N.leb next inv) eqn:L1; destruct (N.leb (N.succ next) inv) eqn:L2;
-      destruct (N.ltb inv (next + N.succ (n_creates ops))) eqn:L3; destruct (N.ltb inv (N.succ next + n_creates ops)) eqn:L4;
-      try reflexivity; exfalso;
-      repeat match goal with
-             | H : N.leb _ _ = true |- _ => apply N.leb_le in H
-             | H : N.leb _ _ = false |- _ => apply N.leb_gt in H
-             | H : N.ltb _ _ = true |- _ => apply N.ltb_lt in H
-             | H : N.ltb _ _ = false |- _ => apply N.ltb_ge in H
-             end; lia.
-Qed.
-
-Theorem consumed_le_registered : forall w inv ops next m, placed (pm_tokens m) ->
-  (succw w inv ops (run_ops next m ops) <= cntw w inv (pm_tokens m) + futw w (pm_app m) inv next ops)%nat.
-Proof.
-  intros w inv. induction ops as [|op ops IH]; intros next m P; [cbn; lia|].
-  cbn [run_ops].
-  destruct op as [|b|tr k|tr p]; cbn [step].
-  - (* create *)
-    cbn [succw].
-    assert (P' : placed (pm_tokens (create_invite m next))).
-    { destruct P as [P1 P2]. unfold create_invite, push. cbn [pm_tokens]. split.
-      - intros t j Hin. apply in_app_or in Hin. destruct Hin as [Hin|[Hin|[]]]; [apply P1; exact Hin | inversion Hin; reflexivity].
-      - intros t j a s Hin. apply in_app_or in Hin. destruct Hin as [Hin|[Hin|[]]]; [eapply P2; exact Hin | discriminate Hin]. }
-    specialize (IH (N.succ next) (create_invite m next) P').
-    change (pm_app (create_invite m next)) with (pm_app m) in IH.
-    assert (C : cntw w inv (pm_tokens (create_invite m next)) =
-                (cntw w inv (pm_tokens m) + (if regsel w inv (TkInvite next, TOwned next) then 1 else 0))%nat).
-    { unfold create_invite, push. cbn [pm_tokens]. rewrite cntw_app. f_equal. unfold cntw. cbn [filter].
-      destruct (regsel w inv (TkInvite next, TOwned next)); reflexivity. }
-    pose proof (fut_create w (pm_app m) inv next ops) as F. lia.
-  - (* accept *)
-    destruct (accept_invite m b) as [m'|] eqn:A; cbn [succw].
-    + destruct b as [|i a s]; [discriminate A|]. cbn [accept_invite] in A.
-      destruct (N.eqb a (pm_app m)) eqn:Ea; [|discriminate A]. inversion A; subst m'.
-      assert (P' : placed (pm_tokens (push m (TkInvite i) (TInvite i a s)))).
-      { destruct P as [P1 P2]. unfold push. cbn [pm_tokens]. split.
-        - intros t j Hin. apply in_app_or in Hin. destruct Hin as [Hin|[Hin|[]]]; [apply P1; exact Hin | discriminate Hin].
-        - intros t j a0 s0 Hin. apply in_app_or in Hin. destruct Hin as [Hin|[Hin|[]]]; [eapply P2; exact Hin | inversion Hin; reflexivity]. }
-      specialize (IH next _ P'). change (pm_app (push m (TkInvite i) (TInvite i a s))) with (pm_app m) in IH.
-      assert (C : cntw w inv (pm_tokens (push m (TkInvite i) (TInvite i a s))) =
-                  (cntw w inv (pm_tokens m) + (if w && N.eqb i inv then 1 else 0))%nat).
-      { unfold push. cbn [pm_tokens]. rewrite cntw_app. f_equal. unfold cntw, regsel. cbn [filter fst snd token_eqb is_owned is_invite].
-        destruct w; destruct (N.eqb i inv); reflexivity. }
-      unfold futw in *. cbn [n_creates accepts]. rewrite Ea.
-      destruct w; cbn [andb] in *; [|lia]. rewrite andb_true_r. destruct (N.eqb i inv); lia.
-    + specialize (IH next m P). unfold futw in *. cbn [n_creates accepts].
-      destruct b as [|i a s]; [lia|]. cbn [accept_invite] in A.
-      destruct (N.eqb a (pm_app m)); [discriminate A|]. rewrite andb_false_r. destruct w; lia.
-  - (* lookup *)
-    destruct (lookup_obs (get_token_type m (tok_of_ref m tr) k)) as [a b].
-    cbn [succw]. specialize (IH next m P). unfold futw in *. cbn [n_creates accepts]. lia.
-  - (* consume *)
-    assert (Fut : futw w (pm_app m) inv next (OConsume tr p :: ops) = futw w (pm_app m) inv next ops) by reflexivity.
-    rewrite Fut.
-    destruct (get_token_type m (tok_of_ref m tr) (p_key p)) as [t|] eqn:G.
-    2:{ cbn [lookup_obs fst succw]. specialize (IH next m P).
-        destruct tr as [i|q|]; try lia. cbn [Z.eqb]. rewrite andb_false_r. lia. }
+    2:{ cbn [lookup_obs fst spec_ops op_ok pending_after].
+        assert (PA : pending_after pending (OConsume tr p) 0 0 = pending) by (destruct tr; reflexivity).
+        cbn [pending_after] in PA. rewrite PA. rewrite (IH next m pending A Hn Ok). rewrite andb_true_r.
+        destruct tr as [inv|q|]; try reflexivity. destruct (mem_n inv pending); reflexivity. }
     assert (Found : exists e, In e (pm_tokens m) /\ token_eqb (fst e) (tok_of_ref m tr) = true /\ snd e = t).
     { unfold get_token_type in G. destruct (find _ (pm_tokens m)) as [e|] eqn:F; [|discriminate G].
       inversion G. apply find_some in F. destruct F as [Hin He]. apply andb_true_iff in He.
       exists e. repeat split; [exact Hin | apply He]. }
-    destruct Found as [e [Hin [Htk Ht]]].
+    destruct Found as [e [Hin [Htk Ht]]]. apply token_eqb_eq in Htk.
+    assert (Pend : forall inv, tr = RInv inv -> mem_n inv pending = true).
+    { intros inv Etr. subst tr. destruct (mem_n inv pending) eqn:M; [reflexivity|].
+      cbn [tok_of_ref] in G. rewrite (agree_unknown _ _ _ _ inv (p_key p) A M) in G. discriminate G. }
     destruct t as [k|j|j a s].
-    + cbn [lookup_obs fst succw]. specialize (IH next m P).
-      destruct tr as [i|q|]; try lia. cbn [Z.eqb]. rewrite andb_false_r. lia.
-    + (* an owned invitation j: it sits under TkInvite j and is taken out *)
+    + (* an allowed peer: nothing is consumed *)
+      cbn [lookup_obs fst spec_ops op_ok pending_after].
+      assert (PA : (match tr with RInv inv => if Z.eqb 0 1 then drop_n inv pending else pending | _ => pending end) = pending) by (destruct tr; reflexivity).
+      rewrite PA. rewrite (IH next m pending A Hn Ok). rewrite andb_true_r.
+      destruct tr as [inv|q|]; try reflexivity. rewrite (Pend inv eq_refl). reflexivity.
+    + (* an owned invitation *)
       assert (Etk : tok_of_ref m tr = TkInvite j).
-      { apply token_eqb_eq in Htk. rewrite <- Htk. destruct e as [tk t0]. cbn [fst snd] in *. subst t0. apply (proj1 P). exact Hin. }
+      { rewrite <- Htk. apply (proj1 (ag_placed _ _ _ _ A e Hin)). exact Ht. }
+      assert (Etr : tr = RInv j).
+      { destruct tr as [i|q|]; cbn [tok_of_ref] in Etk; [inversion Etk; reflexivity | exfalso; eapply token_of_not_invite; exact Etk | discriminate Etk]. }
+      subst tr.
       set (m1 := push m (token_of (pm_secret m) (p_pub p)) (TAllowed (p_key p))).
       set (m' := {| pm_app := pm_app m1; pm_secret := pm_secret m1;
                     pm_tokens := remove_first (TkInvite j) (is_owned j) (pm_tokens m1) |}).
       assert (CC : invite_accepted m (TOwned j) p = Some m') by reflexivity.
-      rewrite CC.
-      assert (P1 : placed (pm_tokens m1)) by (unfold m1, push; cbn [pm_tokens]; apply placed_push_allowed; exact P).
-      assert (P' : placed (pm_tokens m')) by (unfold m'; cbn [pm_tokens]; apply placed_remove; exact P1).
-      assert (C1 : cntw w inv (pm_tokens m1) = cntw w inv (pm_tokens m)).
-      { unfold m1, push. cbn [pm_tokens]. rewrite cntw_app. unfold cntw at 2, regsel. cbn [filter fst snd is_owned is_invite].
-        rewrite andb_false_r, orb_false_l, andb_false_r. cbn [length]. lia. }
-      specialize (IH next m' P'). change (pm_app m') with (pm_app m) in IH.
-      cbn [lookup_obs fst succw].
-      pose proof (remove_first_cnt_le w inv (TkInvite j) (is_owned j) (pm_tokens m1)) as R.
-      change (remove_first (TkInvite j) (is_owned j) (pm_tokens m1)) with (pm_tokens m') in R.
-      destruct tr as [i|q|]; try lia.
-      cbn [tok_of_ref] in Etk. inversion Etk; subst i.
-      destruct (N.eqb j inv) eqn:Ej; cbn [andb]; [|lia].
-      apply N.eqb_eq in Ej. subst j. cbn [Z.eqb Pos.eqb orb andb].
-      assert (D : S (cntw w inv (pm_tokens m')) = cntw w inv (pm_tokens m1)).
-      { unfold m'. cbn [pm_tokens]. apply remove_first_cnt_dec.
-        - intros x Hx. unfold regsel. apply andb_true_iff in Hx. destruct Hx as [H1 H2]. rewrite H1, H2. reflexivity.
-        - exists e. split.
-          + unfold m1, push. cbn [pm_tokens]. apply in_or_app. left. exact Hin.
-          + cbn [tok_of_ref] in Htk. rewrite Htk, Ht. cbn [is_owned]. rewrite N.eqb_refl. reflexivity. }
-      lia.
-    + (* a received invitation j *)
+      rewrite CC. cbn [lookup_obs fst spec_ops op_ok pending_after Z.eqb Pos.eqb]. rewrite (Pend j eq_refl). cbn [andb].
+      change (pm_app m) with (pm_app m'). apply IH; [|exact Hn|exact Ok].
+      apply (agree_consume next total m1 pending j (is_owned j) m').
+      * unfold m1. apply agree_push_allowed. exact A.
+      * intros x Hx. unfold registered. apply andb_true_iff in Hx. destruct Hx as [H1 H2]. rewrite H1, H2. reflexivity.
+      * exists e. split; [unfold m1, push; cbn [pm_tokens]; apply in_or_app; left; exact Hin|].
+        rewrite Htk, Ht. cbn [tok_of_ref token_eqb is_owned]. rewrite !N.eqb_refl. reflexivity.
+      * reflexivity.
+    + (* a received invitation *)
       assert (Etk : tok_of_ref m tr = TkInvite j).
-      { apply token_eqb_eq in Htk. rewrite <- Htk. destruct e as [tk t0]. cbn [fst snd] in *. subst t0. eapply (proj2 P). exact Hin. }
+      { rewrite <- Htk. eapply (proj2 (ag_placed _ _ _ _ A e Hin)). exact Ht. }
+      assert (Etr : tr = RInv j).
+      { destruct tr as [i|q|]; cbn [tok_of_ref] in Etk; [inversion Etk; reflexivity | exfalso; eapply token_of_not_invite; exact Etk | discriminate Etk]. }
+      subst tr.
       set (m1 := push m (token_of (pm_secret m) (p_pub p)) (TAllowed (p_key p))).
       set (m' := {| pm_app := pm_app m1; pm_secret := pm_secret m1;
                     pm_tokens := remove_first (TkInvite j) (is_invite j) (pm_tokens m1) |}).
       assert (CC : invite_accepted m (TInvite j a s) p = Some m') by reflexivity.
-      rewrite CC.
-      assert (P1 : placed (pm_tokens m1)) by (unfold m1, push; cbn [pm_tokens]; apply placed_push_allowed; exact P).
-      assert (P' : placed (pm_tokens m')) by (unfold m'; cbn [pm_tokens]; apply placed_remove; exact P1).
-      assert (C1 : cntw w inv (pm_tokens m1) = cntw w inv (pm_tokens m)).
-      { unfold m1, push. cbn [pm_tokens]. rewrite cntw_app. unfold cntw at 2, regsel. cbn [filter fst snd is_owned is_invite].
-        rewrite andb_false_r, orb_false_l, andb_false_r. cbn [length]. lia. }
-      specialize (IH next m' P'). change (pm_app m') with (pm_app m) in IH.
-      cbn [lookup_obs fst succw].
-      pose proof (remove_first_cnt_le w inv (TkInvite j) (is_invite j) (pm_tokens m1)) as R.
-      change (remove_first (TkInvite j) (is_invite j) (pm_tokens m1)) with (pm_tokens m') in R.
-      destruct tr as [i|q|]; try lia.
-      cbn [tok_of_ref] in Etk. inversion Etk; subst i.
-      destruct (N.eqb j inv) eqn:Ej; cbn [andb]; [|lia].
-      apply N.eqb_eq in Ej. subst j. cbn [Z.eqb Pos.eqb orb].
-      destruct w; cbn [andb]; [|lia].
-      assert (D : S (cntw true inv (pm_tokens m')) = cntw true inv (pm_tokens m1)).
-      { unfold m'. cbn [pm_tokens]. apply remove_first_cnt_dec.
-        - intros x Hx. unfold regsel. apply andb_true_iff in Hx. destruct Hx as [H1 H2]. rewrite H1, H2. cbn [andb]. apply orb_true_r.
-        - exists e. split.
-          + unfold m1, push. cbn [pm_tokens]. apply in_or_app. left. exact Hin.
-          + cbn [tok_of_ref] in Htk. rewrite Htk, Ht. cbn [is_invite]. rewrite N.eqb_refl. reflexivity. }
-      lia.
+      rewrite CC. cbn [lookup_obs fst spec_ops op_ok pending_after Z.eqb Pos.eqb]. rewrite (Pend j eq_refl). cbn [andb].
+      change (pm_app m) with (pm_app m'). apply IH; [|exact Hn|exact Ok].
+      apply (agree_consume next total m1 pending j (is_invite j) m').
+      * unfold m1. apply agree_push_allowed. exact A.
+      * intros x Hx. unfold registered. apply andb_true_iff in Hx. destruct Hx as [H1 H2]. rewrite H1, H2. apply orb_true_r.
+      * exists e. split; [unfold m1, push; cbn [pm_tokens]; apply in_or_app; left; exact Hin|].
+        rewrite Htk, Ht. cbn [tok_of_ref token_eqb is_invite]. rewrite !N.eqb_refl. reflexivity.
+      * reflexivity.
 Qed.
 
-Lemma init_placed : forall app me mk, placed (pm_tokens (init_pm app me mk)).
+Lemma init_agree : forall app me mk total, agree 1 total (init_pm app me mk) [].
 Proof.
-  intros. split.
-  - intros t i Hin. cbn in Hin. destruct Hin as [Hin|[]]. discriminate Hin.
-  - intros t i a s Hin. cbn in Hin. destruct Hin as [Hin|[]]. discriminate Hin.
+  intros. constructor.
+  - intros e i Hin He. cbn in Hin. destruct Hin as [Hin|[]]. subst e. discriminate He.
+  - intros e Hin. cbn in Hin. destruct Hin as [Hin|[]]. subst e. cbn [snd]. split; intros; discriminate.
+  - intros i. reflexivity.
+  - intros i Hi. discriminate Hi.
 Qed.
 
-(* HOLDS (repaired by 2163820), every history: an invitation this instance created is consumed at most once *)
-Theorem invite_holds : forall app me mk ops inv,
-  (succw false inv ops (run_ops 1 (init_pm app me mk) ops) <= 1)%nat.
+(* HOLDS (fixes 2163820 and 1e2cdf6), every history of table operations: an invitation, created or
+   received, accepted once or several times, is consumed only while it is pending and at most once per
+   acceptance; it is accepted only for this application; lookups answer an allowed-peer entry only
+   for the claimed key; the token of an invitation that is not pending is unknown *)
+Theorem invite_holds : forall app me mk ops, ops_ok 1 (n_creates ops) ops = true ->
+  spec_invites app ops (run_ops 1 (init_pm app me mk) ops) = true.
 Proof.
-  intros app me mk ops inv.
-  pose proof (consumed_le_registered false inv ops 1 (init_pm app me mk) (init_placed app me mk)) as G.
-  unfold futw in G. cbn [cntw init_pm pm_tokens filter regsel fst snd token_eqb andb length] in G.
-  destruct (N.leb 1 inv && N.ltb inv (1 + n_creates ops)); lia.
+  intros app me mk ops Ok. unfold spec_invites.
+  change app with (pm_app (init_pm app me mk)) at 1.
+  apply (spec_ops_run (n_creates ops)); [apply init_agree | lia | exact Ok].
 Qed.
 
-Lemma succw_true : forall inv ops obs, succw true inv ops obs = successes inv ops obs.
-Proof.
-  intros inv. induction ops as [|op ops IH]; intros obs; [reflexivity|].
-  destruct obs as [|a [|b obs]]; try reflexivity. cbn [succw successes]. rewrite IH. reflexivity.
-Qed.
-
-(* every invitation, every history: consumed at most as often as it was registered *)
-Theorem consumed_le_registrations : forall app me mk ops inv,
-  (successes inv ops (run_ops 1 (init_pm app me mk) ops) <= registrations app inv ops)%nat.
-Proof.
-  intros app me mk ops inv. rewrite <- succw_true.
-  pose proof (consumed_le_registered true inv ops 1 (init_pm app me mk) (init_placed app me mk)) as G.
-  unfold futw in G. cbn [cntw init_pm pm_tokens pm_app filter regsel fst snd token_eqb andb length] in G.
-  unfold registrations.
-  replace (N.leb 1 inv && N.leb inv (n_creates ops)) with (N.leb 1 inv && N.ltb inv (1 + n_creates ops)); [lia|].
-  f_equal. destruct (N.ltb inv (1 + n_creates ops)) eqn:A; destruct (N.leb inv (n_creates ops)) eqn:B; try reflexivity; exfalso;
-    repeat match goal with
-           | H : N.leb _ _ = true |- _ => apply N.leb_le in H
-           | H : N.leb _ _ = false |- _ => apply N.leb_gt in H
-           | H : N.ltb _ _ = true |- _ => apply N.ltb_lt in H
-           | H : N.ltb _ _ = false |- _ => apply N.ltb_ge in H
-           end; lia.
-Qed.
-
-(* outside class 3 (an invitation registered more than once AND presented more than once) single use holds *)
-Lemma single_use_outside_known : forall app me mk ops,
-  existsb (fun inv => Nat.ltb 1 (registrations app inv ops) && Nat.ltb 1 (attempts inv ops)) (invs_of ops) = false ->
-  forallb (fun inv => Nat.leb (successes inv ops (run_ops 1 (init_pm app me mk) ops)) 1) (invs_of ops) = true.
-Proof.
-  intros app me mk ops H. apply forallb_forall. intros inv Hin.
-  assert (A : Nat.ltb 1 (registrations app inv ops) && Nat.ltb 1 (attempts inv ops) = false).
-  { destruct (Nat.ltb 1 (registrations app inv ops) && Nat.ltb 1 (attempts inv ops)) eqn:E; [|reflexivity].
-    assert (X : existsb (fun inv => Nat.ltb 1 (registrations app inv ops) && Nat.ltb 1 (attempts inv ops)) (invs_of ops) = true)
-      by (apply existsb_exists; exists inv; split; assumption).
-    rewrite X in H. discriminate. }
-  apply Nat.leb_le.
-  pose proof (successes_le_attempts inv ops (run_ops 1 (init_pm app me mk) ops)) as S1.
-  pose proof (consumed_le_registrations app me mk ops inv) as S2.
-  apply andb_false_iff in A. destruct A as [A|A]; apply Nat.ltb_ge in A; lia.
-Qed.
-
-(* the witness of the repaired class now passes; the remaining class 3 witness *)
+(* the witnesses of the two repaired classes now pass *)
 Definition twice : list pmop :=
   [OCreate; OConsume (RInv 1) {| p_key := 2; p_pub := 2 |}; OConsume (RInv 1) {| p_key := 3; p_pub := 3 |};
    OLookup (RPeer {| p_key := 2; p_pub := 2 |}) 2; OLookup (RPeer {| p_key := 3; p_pub := 3 |}) 3].
-Definition me0 : secret := {| s_bytes := 1; s_pub := 1 |}.
-Lemma invite_witness_now_holds :
-  run_C19 (CInvites 1 me0 1 twice) = [1; 1; 2; 1; 0; 0; 1; 2; 0; 0]%Z /\
-  successes 1 twice (run_C19 (CInvites 1 me0 1 twice)) = 1%nat /\
-  spec_C19 (CInvites 1 me0 1 twice) (run_C19 (CInvites 1 me0 1 twice)) = true /\
-  known_C19 (CInvites 1 me0 1 twice) = [].
-Proof. vm_compute. repeat split; reflexivity. Qed.
-
 Definition accepted_twice : list pmop :=
-  [OAccept (InviteFor 7 1 (Some 2)); OAccept (InviteFor 7 1 (Some 2));
-   OConsume (RInv 7) {| p_key := 2; p_pub := 2 |}; OConsume (RInv 7) {| p_key := 2; p_pub := 2 |}; OConsume (RInv 7) {| p_key := 2; p_pub := 2 |}].
-Lemma reregistered_refuted :
-  run_C19 (CInvites 1 me0 1 accepted_twice) = [1; 0; 1; 0; 3; 1; 3; 1; 0; 0]%Z /\
-  successes 7 accepted_twice (run_C19 (CInvites 1 me0 1 accepted_twice)) = 2%nat /\
-  spec_C19 (CInvites 1 me0 1 accepted_twice) (run_C19 (CInvites 1 me0 1 accepted_twice)) = false /\
-  known_C19 (CInvites 1 me0 1 accepted_twice) = [3]%Z.
+  [OAccept (InviteFor 27 1 (Some 2)); OAccept (InviteFor 27 1 (Some 2));
+   OConsume (RInv 27) {| p_key := 2; p_pub := 2 |}; OConsume (RInv 27) {| p_key := 2; p_pub := 2 |}; OConsume (RInv 27) {| p_key := 2; p_pub := 2 |}].
+Definition me0 : secret := {| s_bytes := 1; s_pub := 1 |}.
+Lemma invite_witnesses_now_hold :
+  run_C19 (CInvites 1 me0 1 twice) = [1; 1; 2; 1; 0; 0; 1; 2; 0; 0]%Z /\
+  spec_C19 (CInvites 1 me0 1 twice) (run_C19 (CInvites 1 me0 1 twice)) = true /\
+  run_C19 (CInvites 1 me0 1 accepted_twice) = [1; 0; 1; 0; 3; 1; 0; 0; 0; 0]%Z /\
+  spec_C19 (CInvites 1 me0 1 accepted_twice) (run_C19 (CInvites 1 me0 1 accepted_twice)) = true /\
+  (* the oracle still refuses what the unrepaired code did *)
+  spec_C19 (CInvites 1 me0 1 twice) [1; 1; 2; 1; 2; 1; 1; 2; 1; 3]%Z = false /\
+  spec_C19 (CInvites 1 me0 1 accepted_twice) [1; 0; 1; 0; 3; 1; 3; 1; 0; 0]%Z = false.
 Proof. vm_compute. repeat split; reflexivity. Qed.
 
 (* ================================================================ tokens: run/spec *)
@@ -664,6 +574,7 @@ Qed.
 Definition case_ok (c : c19case) : Prop :=
   match c with
   | CTokens secs probes => secs_fun secs /\ forall p, In p probes -> (fst p < length secs)%nat /\ (snd p < length secs)%nat
+  | CInvites _ _ _ ops => ops_ok 1 (n_creates ops) ops = true
   | _ => True
   end.
 
@@ -684,9 +595,7 @@ Theorem run_spec_outside_known : forall c, case_ok c -> known_C19 c = [] -> spec
 Proof.
   intros c Ok K. destruct c as [ch lk t r ev | app me mk ops | secs probes]; cbn [spec_C19 run_C19].
   - apply handshake_spec.
-  - unfold spec_invites. apply andb_true_iff. split.
-    + apply table_holds.
-    + apply single_use_outside_known. cbn [known_C19] in K. destruct (existsb _ (invs_of ops)); [discriminate K | reflexivity].
+  - apply invite_holds. exact Ok.
   - destruct Ok as [F D]. destruct (probes_defined secs probes D) as [ts Hts]. rewrite Hts.
     apply spec_tokens_run; [exact F | apply known_tokens_no_clash; exact K | exact Hts].
 Qed.
